@@ -22,7 +22,8 @@ func init() {
 		RuleDocs: []string{
 			"C20.R1 typestate / must-pass-through on WritingState.Stop and Start; creation sites",
 			"C20.R2 occurrence counting of writes per call; argument provenance; control dependence of the line write",
-			"C20.R3 who-may-touch the handle fields",
+			"C20.R3 who-may-touch the handle fields; a side file with a buffered writer is written only through it",
+			"C20.R2 (additions) each block handler is called exactly once per block outside any loop; every successful return of the UNPAUSE arm has passed the label test",
 		},
 		Assumptions: []string{"WritingState and the names of its handle / file-name fields are name-keyed anchors (handles = fields of type *os.File and *bufio.Writer)"},
 		Run:         runC20,
@@ -191,6 +192,7 @@ func runC20(p *Prog, r *Report) {
 	c20Create(p, r, sfs)
 	c20Events(p, r, sfs)
 	c20Who(p, r, sfs)
+	c20More(p, r, sfs)
 }
 
 func methodCallOn(in ssa.Instruction, field, method string) bool {
@@ -643,4 +645,128 @@ func c20Who(p *Prog, r *Report, sfs []sideFile) {
 		sort.Strings(users[h])
 		r.Check(bad == "", "C20.R3", "handle "+h+" is touched only by the writing state and the block handlers", "-", strings.Join(users[h], ", "), "the handle is also accessed in "+bad)
 	}
+}
+
+// ---- additions after the second round of seeded changes ---------------------------------------
+
+// c20More: (a) each block handler is called exactly once per block, outside any loop, by the
+// block processing function; (b) a side file that has a buffered writer is written only through
+// that writer (a direct write to the *os.File overtakes what is still buffered); (c) in the
+// write-control function every successful return of the UNPAUSE arm has passed the test for a
+// label, and so (R2) its label write.
+func c20More(p *Prog, r *Report, sfs []sideFile) {
+	ps := p.Func("", "AnySource", "ProcessSegments")
+	if ps == nil {
+		r.Unk("C20.anchor", "AnySource.ProcessSegments", "-", "anchor not found")
+		return
+	}
+	r.Fn(FuncName(ps))
+	for _, h := range []string{"HandleDataDrop", "HandleExternalTriggers"} {
+		var sites []ssa.Instruction
+		Instrs(ps, func(in ssa.Instruction) {
+			if cc := CallOf(in); cc != nil && cc.StaticCallee() != nil && cc.StaticCallee().Name() == h {
+				sites = append(sites, in)
+			}
+		})
+		ok := len(sites) == 1 && !InLoop(sites[0])
+		pos := p.Pos(ps.Pos())
+		if len(sites) > 0 {
+			pos = p.InstrPos(sites[0])
+		}
+		r.Check(ok, "C20.R2", "block processing calls "+h+" exactly once per block", pos, "one call site, not in a loop",
+			fmt.Sprintf("%d call site(s), in a loop: %v — the handler writes one entry per call, so one event of a block is logged several times (or, with no call, never)", len(sites), len(sites) > 0 && InLoop(sites[0])))
+	}
+	// (b)
+	buffered := map[string]string{}
+	for _, sf := range sfs {
+		if sf.writer != "" {
+			buffered[sf.file] = sf.writer
+		}
+	}
+	for _, fn := range p.LibFuncs() {
+		Instrs(fn, func(in ssa.Instruction) {
+			cc := CallOf(in)
+			if cc == nil || cc.StaticCallee() == nil || len(cc.Args) == 0 {
+				return
+			}
+			name := cc.StaticCallee().Name()
+			if name != "Write" && name != "WriteString" && name != "WriteAt" && name != "ReadFrom" {
+				return
+			}
+			if cc.StaticCallee().Signature.Recv() == nil || !strings.HasSuffix(cc.StaticCallee().Signature.Recv().Type().String(), "os.File") {
+				return
+			}
+			o, f, _, ok := FieldOf(cc.Args[0])
+			if !ok || o != wsT || buffered[f] == "" {
+				return
+			}
+			r.Fn(FuncName(fn))
+			r.Bad("C20.R3", "side file "+f+" is written only through its buffered writer ("+FuncName(fn)+")", p.InstrPos(in),
+				"a direct "+name+" on the file while "+buffered[f]+" may still hold earlier bytes: the direct write reaches the file first, so events (and the header) are out of order")
+		})
+	}
+	for f, w := range buffered {
+		r.OK("C20.R3", "side file "+f+" is written only through its buffered writer", "-", "no direct write on the file; "+w+" is the only data path (violations are listed per function)")
+	}
+	// (c)
+	wc := p.Func("", "AnySource", "WriteControl")
+	if wc == nil {
+		r.Unk("C20.anchor", "AnySource.WriteControl", "-", "anchor not found")
+		return
+	}
+	r.Fn(FuncName(wc))
+	var arm *ssa.BasicBlock
+	Instrs(wc, func(in ssa.Instruction) {
+		c, ok := in.(*ssa.Call)
+		if !ok || !IsCallTo(in, "strings.HasPrefix") {
+			return
+		}
+		if k, isC := c.Call.Args[1].(*ssa.Const); !isC || k.Value == nil || !strings.Contains(k.Value.ExactString(), "UNPAUSE") {
+			return
+		}
+		for _, ref := range *c.Referrers() {
+			if iff, isIf := ref.(*ssa.If); isIf {
+				arm = iff.Block().Succs[0]
+			}
+		}
+	})
+	if arm == nil {
+		r.Bad("C20.R2", "UNPAUSE with a label: the label test precedes every successful return", p.Pos(wc.Pos()), "the UNPAUSE arm of the write-control function was not found")
+		return
+	}
+	isLabelTest := func(in ssa.Instruction) bool {
+		iff, ok := in.(*ssa.If)
+		if !ok {
+			return false
+		}
+		bo, ok := iff.Cond.(*ssa.BinOp)
+		if !ok {
+			return false
+		}
+		for _, side := range []ssa.Value{bo.X, bo.Y} {
+			if c, isCall := side.(*ssa.Call); isCall {
+				if b, isB := c.Call.Value.(*ssa.Builtin); isB && b.Name() == "len" {
+					if _, f, _, okf := FieldOf(c.Call.Args[0]); okf && f == "Request" {
+						return true
+					}
+				}
+			}
+		}
+		return false
+	}
+	// walk from the first instruction of the arm
+	esc := reachFromBlock(arm, isLabelTest, func(in ssa.Instruction) bool {
+		ret, ok := in.(*ssa.Return)
+		if !ok || len(ret.Results) == 0 {
+			return false
+		}
+		c, isC := returnedValue(ret, len(ret.Results)-1).(*ssa.Const)
+		return isC && c.Value == nil
+	})
+	pos := p.Pos(wc.Pos())
+	if len(esc) > 0 {
+		pos = p.InstrPos(esc[0])
+	}
+	r.Check(len(esc) == 0, "C20.R2", "UNPAUSE with a label: the label test precedes every successful return", pos, "every nil return of the UNPAUSE arm has passed the test of the request's length",
+		"the UNPAUSE arm can report success without having looked for a label: an accepted `UNPAUSE <label>` then leaves no line in the experiment-state file")
 }
